@@ -146,6 +146,62 @@ def api_single(item):
     return part
 
 
+def api_independent(item):
+    """streams built without a table of throttles: a limit put on one of them (in place, as the server does with
+    ``throttles.update``) is that stream's alone - every other stream stays without any delay"""
+    how, length = item
+    import aioftp as a
+    part = report.Partial()
+    w = World()
+    try:
+        L = 8
+        alpha = list(itertools.product([1, L, 3 * L], [0.0, 0.25], [0.0, 0.5]))
+        for direction in ("read", "write"):
+            for n in range(1, length + 1):
+                for seq in itertools.product(alpha, repeat=n):
+                    first = a.ThrottleStreamIO(FakeReader([]), FakeWriter([]))
+                    thr = a.StreamThrottle.from_limits(L, L)
+                    if how == "setitem":
+                        first.throttles["mine"] = thr
+                    elif how == "update":
+                        first.throttles.update(mine=thr)
+                    else:
+                        first.throttles.setdefault("mine", thr)
+                    log = []
+                    reader, writer = FakeReader(log), FakeWriter(log)
+                    second = a.ThrottleStreamIO(reader, writer)
+
+                    async def main():
+                        for chunk, dur, gap in seq:
+                            if gap:
+                                await asyncio.sleep(gap)
+                            if direction == "read":
+                                reader.chunk, reader.duration = b"x" * chunk, dur
+                                await second.read(chunk)
+                            else:
+                                writer.duration = dur
+                                await second.write(b"x" * chunk)
+
+                    w.loop._vtime = 0.0
+                    w.loop.iterations = 0
+                    w.run(main())
+                    got = [t for _, t, _ in log]
+                    want = reference(seq, [])
+                    part.evaluations += 1
+                    if len(got) != len(want) or any(abs(g - x) > 1e-6 for g, x in zip(got, want)):
+                        part.violation({"kind": "stream-without-limit-delayed-by-another-streams-limit", "how": how},
+                                       {"seq": seq, "direction": direction, "got": got, "want": want},
+                                       replay={"api": ["independent", how, length]})
+                        return part
+                part.states.add(report.fp(["independent", how, direction, n]))
+        part.nontrivial.add(report.fp(["independent", how]))
+        part.sample({"independent": how, "length": length, "alphabet": len(alpha)}, limit=1)
+    finally:
+        w.close()
+    part.transitions = part.evaluations
+    return part
+
+
 def api_configs(item):
     """two throttles, shared/cloned, None/0/opposite, setter and clone mid-sequence"""
     kind, length = item
@@ -382,7 +438,15 @@ def e2e_case(case):
             ukw[f"{srv_dir}_speed_limit_per_connection"] = L
 
     def users(a, base):
+        if case.get("anonymous"):
+            # one account without a login of its own: whatever name a peer gives, it is this account
+            return [a.User("free", None, base_path=base), a.User(base_path=base, **ukw)]
         return [a.User(f"u{k}", None, base_path=base, **ukw) for k in range(nusers)] + [a.User("free", None, base_path=base)]
+
+    def name_of(k):
+        if case.get("anonymous"):
+            return "anonymous" if k == 0 else f"guest{k}"
+        return f"u{k % nusers}"
 
     relogin = case.get("relogin")
 
@@ -408,12 +472,12 @@ def e2e_case(case):
             streams[k] = [c.stream.writer.transport]
             if relogin == "free-then-limited":
                 await c.login("free", "")
-                await c.login(f"u{k % nusers}", "")
+                await c.login(name_of(k), "")
             elif relogin == "limited-then-free":
-                await c.login(f"u{k % nusers}", "")
+                await c.login(name_of(k), "")
                 await c.login("free", "")
             else:
-                await c.login(f"u{k % nusers}", "")
+                await c.login(name_of(k), "")
             clients[k] = c
             srv = c.stream.writer.transport.peer
             login_marks[k] = (len(srv.write_log), len(srv.read_log), len(c.stream.writer.transport.write_log),
@@ -424,7 +488,7 @@ def e2e_case(case):
             c = a.Client(path_io_factory=a.MemoryPathIO, **ckw)
             await c.connect("127.0.0.1", 2121)
             churn_streams.setdefault(k % nusers, []).append(c.stream.writer.transport)
-            await c.login(f"u{k % nusers}", "")
+            await c.login(name_of(k), "")
             await c.quit()
 
         async def one(k):
@@ -728,6 +792,12 @@ def e2e_items(tier):
             for nconn, nusers in ((1, 1), (2, 1), (2, 2)):
                 cases.append({"levels": levels, "direction": direction, "nconn": nconn, "nusers": nusers,
                               "size": 40 * BLOCK, "midlogin": True})
+    # one anonymous account, every connection under another name
+    for lv in ("user", "user_per_connection"):
+        for direction in ("download", "upload"):
+            for nconn in (2, 3):
+                cases.append({"levels": [lv], "direction": direction, "nconn": nconn, "nusers": 1, "size": 20 * BLOCK,
+                              "anonymous": True})
     # re-login on the same control connection: only the limits of the user logged in *now* apply
     for lv in ("user", "user_per_connection"):
         for direction in ("download", "upload"):
@@ -762,7 +832,9 @@ def run(tier, seed, t0):
     cfg_items = [(k, 2 if tier == "quick" else 3) for k in ("two-throttles", "unlimited", "setter-clone", "shared-vs-cloned")]
     eitems, ncases = e2e_items(tier)
     seq_items = [(d, n, size, 20000) for d in ("upload", "download") for n in (2, 5, 15) for size in (1000, 4000, 8192, 10000)]
-    parts = report.pmap(api_single, api_items) + report.pmap(api_configs, cfg_items) + report.pmap(e2e_work, eitems) \
+    ind_items = [(how, length) for how in ("setitem", "update", "setdefault")]
+    parts = report.pmap(api_single, api_items) + report.pmap(api_configs, cfg_items) + report.pmap(api_independent, ind_items) \
+        + report.pmap(e2e_work, eitems) \
         + report.pmap(client_sequence, seq_items)
     part = report.merge_all(parts)
     bounds = {"api": {"limits": [8, 1024], "reset_rates": [1, 10], "fine": "L=100, reset 0.001/0.01, 1-byte blocks, gaps 0/4/16 ms, length 7 (9 thorough)", "read_paths": ["read", "readline", "readexactly"], "chunk": "1, L/2, L, 3L", "io_duration": "0, 1/4, 2*reset",
@@ -794,6 +866,10 @@ def replay(path):
     if "e2e" in rp:
         enable_write_logs()
         part = e2e_case(rp["e2e"])
+        print(json.dumps([v["detail"] for v in part.violations], indent=1, default=repr))
+        return 1 if part.violations else 0
+    if rp.get("api", [None])[0] == "independent":
+        part = api_independent((rp["api"][1], rp["api"][2]))
         print(json.dumps([v["detail"] for v in part.violations], indent=1, default=repr))
         return 1 if part.violations else 0
     print(json.dumps(data["detail"], indent=1, default=repr))
